@@ -27,6 +27,10 @@ CLAIMED = {
          "TLA+ CRC model + TLC detection check; recorded CRC encode/decode events validated (exhaustive flips per frame)"),
  "C20": ("5.C20", "SerPipe!Full = fold of the layer transformations in stack order, independent of storage; MC_SerPipe explores every mix of push/extend emit modes through every stack. Real code: CRC-in-COBS, COBS, CRC over slice/heapless/growable validated against Full; a recording user flavour (with and without block override, bare and under CRC) must receive exactly the plain encoding, then finalize.",
          "TLA+ layer composition + TLC; recorded stacked outputs and user-flavour call logs validated"),
+ "C04": ("5.C04", "DePipe.tla cursor machines (slice; reader with sliding scratch) model-checked under arbitrary call sequences with counts up to usize::MAX (cursor in bounds, block handed out iff inside the remaining input, no over-read). Real code: every pop/try_take_n/size_hint/finalize the Deserializer issues on a recording slice flavour validated step by step against the machine, for valid/truncated/length-attacked/damaged/random inputs on guard-page buffers; borrowed-leaf offsets, panics and refused requests from the wire trace; allocation of 12 concrete std targets under adversarial claimed lengths bounded by the spec's AllocBound.",
+         "TLA+ cursor machine + TLC; op-level trace validation; observed panics/crashes/allocation as constrained event fields"),
+ "C11": ("5.C11", "MC_Transport: read_exact over nondeterministic pieces with a fault offset never over-reads and is equivalent to a stream truncated at the fault. Real code: scripted std::io / embedded-io writers and readers (piece schedules, fault or Ok(0) at every offset), 1..3 messages per stream, scratch 0..need+1; per-message result, reader position (= message length exactly), scratch remainder and borrowed offsets validated by TLC against Wire!Dec on the readable part plus the scratch accounting.",
+         "TLA+ transport environment + TLC; recorded transport behaviours validated against Dec + scratch accounting"),
 }
 PENDING = "check under construction in this session (see DESIGN.md section 8 for the order of construction)"
 m = {
